@@ -298,3 +298,32 @@ func (w *World) pkgRelOfFn(f *ssa.Function) string {
 	}
 	return strings.TrimPrefix(strings.TrimPrefix(p.PkgPath, modPath), "/")
 }
+
+// funcValueEscapes: f is referenced other than as the static callee of a call (a method value / function value
+// that could be called from anywhere).
+func (w *World) funcValueEscapes(f *ssa.Function) bool {
+	f = origin(f)
+	for _, g := range w.Funcs {
+		for _, b := range g.Blocks {
+			for _, i := range b.Instrs {
+				var ops []*ssa.Value
+				ops = i.Operands(ops)
+				for _, op := range ops {
+					if op == nil || *op == nil {
+						continue
+					}
+					fv, ok := (*op).(*ssa.Function)
+					if !ok || origin(fv) != f {
+						continue
+					}
+					// allowed: the callee operand of a static call
+					if ci, ok := i.(ssa.CallInstruction); ok && ci.Common().StaticCallee() != nil && origin(ci.Common().StaticCallee()) == f && ci.Common().Value == *op {
+						continue
+					}
+					return true
+				}
+			}
+		}
+	}
+	return false
+}
